@@ -381,7 +381,7 @@ def check_ring_helpers(ctx, rule):
                   "on a ring of %d slots holding clocks %s from slot %d, ring_check %s; it must abort exactly when a clock is "
                   "lower than the one before (equal clocks are sorted)" %
                   (SIZE, list(clocks), start, "aborts" if dies else "returns"))
-    EVSZ = 12
+    EVSZ = prog.records["ovni_ev_header"]["size"]
     for start, count in ((0, 3), (2, 3), (3, 2), (1, 0), (3, 3)):
         tail = (start + count) % SIZE
         store = {DBG: INT(0), ("RING", F("ring", "ev")): PTR("RA", (0,)), ("RING", F("ring", "size")): INT(SIZE),
